@@ -16,7 +16,7 @@ import (
 	"google.golang.org/protobuf/types/known/wrapperspb"
 )
 
-var syTopos = []string{"direct", "proxy", "demux"}
+var syTopos = []string{"direct", "proxy", "demux", "rendezvous"}
 
 func syPickSize(rng *rand.Rand) int {
 	// all seven sizes; the 64 KiB one less often
@@ -170,7 +170,7 @@ type freeCfg struct {
 
 // runC01Free: real goroutines, no gating, one connection; the calls of a caller are issued in epochs of
 // 25 (all callers finish an epoch before the next starts), the history of each epoch is one case.
-func runC01Free(t *testing.T, fi int, fc freeCfg) (epochs [][]string) {
+func runC01Free(t *testing.T, fi int, fc freeCfg) (epochs [][]string, wedged bool) {
 	old := runtime.GOMAXPROCS(fc.procs)
 	defer runtime.GOMAXPROCS(old)
 	const epochLen = 25
@@ -258,12 +258,19 @@ func runC01Free(t *testing.T, fi int, fc freeCfg) (epochs [][]string) {
 					}
 				}(d)
 			}
-			wg.Wait()
-			synctest.Wait()
+			// a wedge (every goroutine blocked for good, some on a mutex) ends the run: the calls without result are
+			// judged by the spec
+			wedged = syAwait(&wg)
+			if !wedged {
+				synctest.Wait()
+			}
 			epochs = append(epochs, r.hist.since(m))
+			if wedged {
+				break
+			}
 		}
 		r.close()
-		synctest.Wait()
+		syQuiesce(wedged)
 	})
 	return
 }
@@ -282,6 +289,8 @@ func TestC01(t *testing.T) {
 	// plain calls (no metadata, no deadline) over by-reference transports, one method per caller; callers with dead contexts
 	frees = append(frees, freeCfg{16, 8, 50, 1, true, false, true, 0}, freeCfg{16, 8, 50, 2, true, false, true, 0},
 		freeCfg{4, 32, 50, 0, true, false, true, 0}, freeCfg{16, 32, 50, 0, false, false, false, 6}, freeCfg{4, 16, 50, 2, true, false, true, 4})
+	// zero slack: goat's channel transport over unbuffered channels (a Write returns when the peer has read), by reference
+	frees = append(frees, freeCfg{16, 24, 50, 3, true, false, false, 0}, freeCfg{16, 64, 50, 3, true, false, true, 0}, freeCfg{4, 24, 25, 3, true, false, false, 0})
 	rounds := 12
 	if thorough() {
 		rounds = 60
@@ -299,10 +308,11 @@ func TestC01(t *testing.T) {
 		if fc.barrier {
 			mode = "mode:simultaneous-starts"
 		}
-		for ei, evs := range runC01Free(t, fi, fc) {
+		eps, wedged := runC01Free(t, fi, fc)
+		for ei, evs := range eps {
 			sp.big = append(sp.big, recC01("c01-free", cfg,
 				map[string]any{"procs": fc.procs, "calls_per_caller": fc.calls, "barrier": fc.barrier, "epoch": ei, "run": fi},
-				[]syStep{{syAct{'F', 0}, evs}}, true, mode, fmt.Sprintf("procs=%d", fc.procs)))
+				[]syStep{{syAct{'F', 0}, evs}}, true, mode, fmt.Sprintf("procs=%d", fc.procs), fmt.Sprintf("wedged=%v", wedged)))
 		}
 	}
 	em.Marker("end", 0)
@@ -379,6 +389,47 @@ func TestC01(t *testing.T) {
 		t.Logf("C01 exhaustive %v: %d schedules", cfg, nsched)
 	}
 
+	// ---- A'. batches of concurrent calls separated by gaps of virtual time (6 s, 1 min, 1 h): every caller issues one
+	// call, everything runs to completion, the clock advances while the connection is idle, then the next batch.
+	// Whatever a timer does to an idle connection (retiring workers, expiring registrations) shows in the next batch.
+	type gapCfg struct{ k, per, tick, topo int }
+	gaps := []gapCfg{{8, 2, -5, 0}, {9, 2, -5, 0}, {8, 3, -6, 0}, {3, 4, -5, 0}, {8, 2, -7, 2}, {2, 3, -5, 1}}
+	for gi, g := range gaps {
+		cfg := c01Cfg{topo: g.topo, byRef: gi%2 == 1, k: g.k, per: g.per}
+		rng := newRand(int64(77000 + gi))
+		progs := make([][]syCop, g.k)
+		for i := range progs {
+			for x := 0; x < g.per; x++ {
+				progs[i] = append(progs[i], syCop{Op: "invoke", Pay: syBytes(rng, syPickSize(rng)), M: i + x, Plain: (i+gi)%2 == 0})
+			}
+		}
+		issued, ticked := 0, false
+		steps, complete, _ := runC01Lock(t, cfg, progs, func(step int, en []syAct) int {
+			nonU := -1
+			for i, a := range en {
+				if a.K != 'U' && nonU < 0 {
+					nonU = i
+				}
+			}
+			if issued < g.k && en[0].K == 'U' {
+				issued++
+				return 0
+			}
+			if nonU >= 0 {
+				return nonU
+			}
+			// only user steps are left: the batch is complete
+			if !ticked {
+				ticked = true
+				return g.tick
+			}
+			issued, ticked = 1, false
+			return 0
+		})
+		rec := recC01("c01-gaps", cfg, map[string]any{"gap_ms": map[int]int{-5: 6000, -6: 60000, -7: 3600000}[g.tick], "schedule": sySchedString(steps)}, steps, complete, "mode:batches-and-gaps")
+		sp.small(&rec)
+	}
+
 	// ---- B. seeded random lock-step schedules: 1..8 callers, several calls each, all topologies
 	nrand := 120
 	if thorough() {
@@ -419,7 +470,12 @@ func TestC01(t *testing.T) {
 			at := rng.Intn(len(progs) + 1)
 			progs = append(progs[:at], append([][]syCop{p}, progs[at:]...)...)
 		}
-		steps, complete, _ := runC01Lock(t, cfg, progs, func(step int, en []syAct) int { return rng.Intn(len(en)) })
+		steps, complete, _ := runC01Lock(t, cfg, progs, func(step int, en []syAct) int {
+			if i%3 == 0 && rng.Intn(20) == 0 {
+				return -5 - rng.Intn(3) // the clock advances
+			}
+			return rng.Intn(len(en))
+		})
 		rec := recC01("c01-random", cfg, map[string]any{"calls": ncalls, "schedule": sySchedString(steps)}, steps, complete, "mode:random-lockstep")
 		sp.small(&rec)
 	}
